@@ -176,6 +176,7 @@ THIRD_PARTY_NO_PANIC = [
     "SeedableRng::seed_from_u64", "SeedableRng::from_seed", "SeedableRng::from_rng", "SeedableRng::from_os_rng",
     "Distribution::sample", "Distribution::sample_iter", "Distribution::map",
     "Bernoulli::new", "Bernoulli::from_ratio", "Bernoulli::p", "Uniform::new", "Uniform::new_inclusive",
+    "<rand::distr::Uniform<X> as std::convert::TryFrom<std::ops::Range<X>>>::try_from", "<rand::distr::Uniform<X> as std::convert::TryFrom<std::ops::RangeInclusive<X>>>::try_from",
     "Choose::new", "Choose::num_choices", "WeightedIndex::new", "WeightedIndex::weight", "WeightedIndex::weights",
     "IndexedRandom::choose", "IndexedRandom::choose_multiple", "IndexedRandom::choose_weighted",
     "IndexedRandom::choose_multiple_weighted", "IndexedMutRandom::choose_mut", "IndexedMutRandom::choose_weighted_mut",
